@@ -54,6 +54,7 @@ def handle (ts : List String) : Option String :=
     let evs ← evT.mapM parseEv
     some (replay limit 0 init evs)
   | "srvscript" :: _ => some "n/a"     -- judged by the harness oracle (single version / uncached answer / fault containment)
+  | "srvreal" :: _ => some "n/a"       -- real backends: judged by the harness oracle
   | _ => none
 
 end Driver.C08
